@@ -19,6 +19,7 @@ WORK = os.path.join(ROOT, ".work")
 REPLAYS = os.path.join(ROOT, "replays")
 EVIDENCE = os.path.join(ROOT, "evidence")
 KNOWN = os.path.join(ROOT, "known_findings.json")
+SRC_DIR = [KANI_DIR]
 GUARD_FLAGS = "--cfg rva_verif"
 
 CAPS = {"quick": 300, "thorough": 1500}          # wall seconds per harness
@@ -79,7 +80,7 @@ def run_capped(cmd, cwd, cap_s, log_path):
 
 
 CHECK_RE = re.compile(
-    r"^Check (\d+): (\S+)\n\t - Status: (\w+)\n\t - Description: \"(.*)\"\n(?:\t - Location: (.*)\n)?",
+    r"^Check (\d+): (.+)\n\t - Status: (\w+)\n\t - Description: \"(.*)\"\n(?:\t - Location: (.*)\n)?",
     re.M)
 LOC_RE = re.compile(r"^(.*?):(\d+):(\d+) in function (.*)$")
 
@@ -119,6 +120,13 @@ def is_cover(c):
         c["desc"].startswith("cover condition")
 
 
+def cover_summary(parsed):
+    cv = [c for c in parsed["checks"] if is_cover(c)]
+    req = [c for c in cv if c["desc"].startswith("W:")]
+    return {"required": len(req), "required_satisfied": len([c for c in req if c["status"] == "SATISFIED"]),
+            "informational": {c["desc"][2:]: c["status"] for c in cv if c["desc"].startswith("I:")}}
+
+
 def is_unwind(c):
     return "unwinding assertion" in c["desc"] or "recursion unwinding" in c["desc"]
 
@@ -151,16 +159,18 @@ def classify(status, parsed):
         return "inconclusive", "undetermined checks", []
     if parsed["verdict_line"] != "SUCCESSFUL":
         return "inconclusive", "verdict %s without failed checks" % parsed["verdict_line"], []
-    cov = parsed["covers"]
-    if cov is None or cov[1] == 0:
+    covers = [c for c in parsed["checks"] if is_cover(c)]
+    required = [c for c in covers if c["desc"].startswith("W:")]
+    if not required:
         return "inconclusive", "no reachability witness in harness", []
-    if cov[0] != cov[1]:
-        return "inconclusive", "vacuous: %d of %d covers satisfied" % cov, []
-    return "pass", "all checks hold; %d/%d covers satisfied" % cov, []
+    unsat = [c for c in required if c["status"] != "SATISFIED"]
+    if unsat:
+        return "inconclusive", "vacuous: witness not reachable: %s" % unsat[0]["desc"], []
+    return "pass", "all checks hold; %d/%d witnesses reached" % (len(required), len(required)), []
 
 
 PLAY_RE = re.compile(
-    r"/// Check for `(\w+)`: \"([^\n]*)\"\n\n#\[test\]\nfn \w+\(\) \{\n\s*let concrete_vals: Vec<Vec<u8>> = vec!\[\n(.*?)\n\s*\];",
+    r"/// Check for `(\w+)`: \"([^\n]*)\"\n(?:///[^\n]*\n)*\n#\[test\]\nfn \w+\(\) \{\n\s*let concrete_vals: Vec<Vec<u8>> = vec!\[\n(.*?)\n\s*\];",
     re.S)
 
 
@@ -192,7 +202,7 @@ def build_native(profile):
         cmd = ["cargo", "build", "--bin", "replay", "--target-dir", os.path.join(WORK, "native")]
         if profile == "release":
             cmd.append("--release")
-        p = subprocess.run(cmd, cwd=KANI_DIR, env=env(), stdout=subprocess.PIPE,
+        p = subprocess.run(cmd, cwd=SRC_DIR[0], env=env(), stdout=subprocess.PIPE,
                            stderr=subprocess.STDOUT, text=True)
         path = os.path.join(WORK, "native", "release" if profile == "release" else "debug", "replay")
         ok = p.returncode == 0 and os.path.exists(path)
@@ -288,18 +298,27 @@ def check_relevant(prop, c):
     return prop in tags
 
 
+def snapshot_sources():
+    """Copy the harness crate to a per-prefix directory so that edits to /verif/kani
+    while a run is in flight cannot change what that run compiles."""
+    dst = os.path.join(WORK, "src_" + os.environ.get("VERIF_WPREFIX", "k"))
+    os.makedirs(dst, exist_ok=True)
+    subprocess.run(["rsync", "-a", "--delete", "--exclude", "target", KANI_DIR + "/", dst + "/"], check=True)
+    return dst
+
+
 def run_harness(prop, h, tier, wq, logdir):
     w = wq.get()
     try:
-        tdir = os.path.join(WORK, "k%d" % w)
+        tdir = os.path.join(WORK, "%s%d" % (os.environ.get("VERIF_WPREFIX", "k"), w))
         cap = h.get("cap", CAPS[tier])
         log = os.path.join(logdir, h["name"] + ".log")
-        status, text, wall = run_capped(kani_cmd(h, tdir, False), KANI_DIR, cap, log)
+        status, text, wall = run_capped(kani_cmd(h, tdir, False), SRC_DIR[0], cap, log)
         parsed = parse_kani(text)
         verdict, reason, failed = classify(status, parsed)
         res = {"harness": h["name"], "verdict": verdict, "reason": reason, "wall_s": round(wall, 2),
                "solver_s": parsed["solver_s"], "n_checks": len([c for c in parsed["checks"] if not is_cover(c)]),
-               "covers": parsed["covers"], "failed": [], "functions": sorted({
+               "covers": cover_summary(parsed), "failed": [], "functions": sorted({
                    c["function"] for c in parsed["checks"]
                    if c["function"] and c["file"] and "repo/riscv_analysis" in c["file"]})}
         if verdict == "fail":
@@ -312,7 +331,7 @@ def run_harness(prop, h, tier, wq, logdir):
                 return res
             # second run: concrete playback
             log2 = os.path.join(logdir, h["name"] + ".playback.log")
-            st2, text2, wall2 = run_capped(kani_cmd(h, tdir, True), KANI_DIR, cap, log2)
+            st2, text2, wall2 = run_capped(kani_cmd(h, tdir, True), SRC_DIR[0], cap, log2)
             res["wall_s"] = round(wall + wall2, 2)
             plays = [p for p in parse_playback(text2) if p["kind"] != "cover"]
             for c in relevant:
@@ -342,9 +361,10 @@ def run_property(prop, tier, seed, jobs, only, write_evidence=True):
     if not hs:
         print("no harnesses selected")
         return 2
-    logdir = os.path.join(WORK, "logs", prop)
+    logdir = os.path.join(WORK, "logs" + os.environ.get("VERIF_WPREFIX", ""), prop)
     os.makedirs(logdir, exist_ok=True)
     os.makedirs(WORK, exist_ok=True)
+    SRC_DIR[0] = snapshot_sources()
     jobs = max(1, min(jobs, len(hs)))
     wq = queue.Queue()
     for i in range(jobs):
@@ -409,7 +429,8 @@ def write_evidence_file(prop, tier, seed, results, violations, known_hits, incon
     os.makedirs(EVIDENCE, exist_ok=True)
     conclusive = [r for r in results if r["verdict"] in ("pass", "fail", "pass-other")]
     nontrivial = [r for r in results if r["verdict"] in ("pass", "pass-other")
-                  and r["covers"] and r["covers"][0] == r["covers"][1] and r["covers"][1] > 0
+                  and r["covers"] and r["covers"]["required"] > 0
+                  and r["covers"]["required"] == r["covers"]["required_satisfied"]
                   and r["spec"].get("symbolic")]
     functions = sorted({f for r in results for f in r["functions"]})
     samples = []
